@@ -599,28 +599,28 @@ impl OwnedValue {
     ) -> Option<OwnedValue> {
         match op {
             ArithmeticOp::Plus => match (left, right) {
-                (OwnedValue::Int(a), OwnedValue::Int(b)) => Some(OwnedValue::Int(a + b)),
+                (OwnedValue::Int(a), OwnedValue::Int(b)) => a.checked_add(*b).map(OwnedValue::Int),
                 (OwnedValue::Float(a), OwnedValue::Float(b)) => Some(OwnedValue::Float(a + b)),
                 (OwnedValue::Int(a), OwnedValue::Float(b)) => Some(OwnedValue::Float(*a as f64 + b)),
                 (OwnedValue::Float(a), OwnedValue::Int(b)) => Some(OwnedValue::Float(a + *b as f64)),
                 _ => None,
             },
             ArithmeticOp::Minus => match (left, right) {
-                (OwnedValue::Int(a), OwnedValue::Int(b)) => Some(OwnedValue::Int(a - b)),
+                (OwnedValue::Int(a), OwnedValue::Int(b)) => a.checked_sub(*b).map(OwnedValue::Int),
                 (OwnedValue::Float(a), OwnedValue::Float(b)) => Some(OwnedValue::Float(a - b)),
                 (OwnedValue::Int(a), OwnedValue::Float(b)) => Some(OwnedValue::Float(*a as f64 - b)),
                 (OwnedValue::Float(a), OwnedValue::Int(b)) => Some(OwnedValue::Float(a - *b as f64)),
                 _ => None,
             },
             ArithmeticOp::Multiply => match (left, right) {
-                (OwnedValue::Int(a), OwnedValue::Int(b)) => Some(OwnedValue::Int(a * b)),
+                (OwnedValue::Int(a), OwnedValue::Int(b)) => a.checked_mul(*b).map(OwnedValue::Int),
                 (OwnedValue::Float(a), OwnedValue::Float(b)) => Some(OwnedValue::Float(a * b)),
                 (OwnedValue::Int(a), OwnedValue::Float(b)) => Some(OwnedValue::Float(*a as f64 * b)),
                 (OwnedValue::Float(a), OwnedValue::Int(b)) => Some(OwnedValue::Float(a * *b as f64)),
                 _ => None,
             },
             ArithmeticOp::Divide => match (left, right) {
-                (OwnedValue::Int(a), OwnedValue::Int(b)) if *b != 0 => Some(OwnedValue::Int(a / b)),
+                (OwnedValue::Int(a), OwnedValue::Int(b)) if *b != 0 => a.checked_div(*b).map(OwnedValue::Int),
                 (OwnedValue::Float(a), OwnedValue::Float(b)) if *b != 0.0 => Some(OwnedValue::Float(a / b)),
                 (OwnedValue::Int(a), OwnedValue::Float(b)) if *b != 0.0 => Some(OwnedValue::Float(*a as f64 / b)),
                 (OwnedValue::Float(a), OwnedValue::Int(b)) if *b != 0 => Some(OwnedValue::Float(a / *b as f64)),
